@@ -93,6 +93,15 @@ def main():
                     h["fault"] = {"role": "qmail-send", "call": call, "k": k, "what": "fail %d" % err, "obj": obj}
                     h["id"] = "rearm-fails-%s-%d-%d" % (obj, k, err)
                     hs.append(h)
+        # new mail while the daemon is on its way out: after TERM, with a delivery still in flight, it no longer scans todo/ - and
+        # must then not go on watching the trigger it will never re-arm (it would spin until the last report comes in)
+        for v in range(3):
+            chan = [b"local.test", b"remote.test", b"local.test"][v]
+            ms = [{"body": b"Subject: t\n\nterm %d\n" % k, "sender": b"tt%d@origin.test" % v, "rcpts": [b"tt%d-%d@%s" % (v, k, chan)]} for k in range(3)]
+            oc = {m["rcpts"][0].decode(): "K" for m in ms}
+            oc["tt%d@origin.test" % v] = "K"
+            sc = [("inject", 0), ("signal", "TERM"), ("inject", 1)] + ([("inject", 2)] if v == 2 else []) + [("answer", "fifo"), ("start",), ("answer", "fifo"), ("answer", "fifo")]
+            hs.append({"id": "term-inflight-inject-%d" % v, "seed": 7800 + v, "strict": 0, "drain_rounds": 10, "messages": ms, "outcomes": oc, "script": sc})
         runs += qsengine.run_histories(ck, tree, hs)
     bad, vres = qsengine.judge(ck, runs)
     ck.add_tlc("QSendTrace", vres)
